@@ -69,6 +69,9 @@ TARGETS_A = ["app", "app::db", "log", "ignored", "ign", "ig", "hyper::client", "
 IGNORES = [[], [], [], ["ign"], ["hyper", "app::"], ["log"], [""], ["db"], ["pp", "client"], ["og"], ["αβ"], ["app::db"],
            ["ignored::more"], ["x"], ["app", "log", "ign"], ["app"], ["App"], ["hyper::client::conn"], ["αβγ"], ["lo", "xl"],
            ["my-crate", "my_crate"], ["ignored", "ignored"], [" app"], ["app "]]
+# string literals without arguments (keep in step with with_lit / emit_macro_lit in h_logbridge.rs; the harness echoes them)
+LITS = ["plain literal message", "with \"quotes\" inside", "back\\slash and \ttab", "line1\nline2", "{braces} and %s", "", "ünï✓ 🦀",
+        "log.target=evil 'single'"]
 INITS = ["builder", "builder", "builder", "all", "default", "init", "filter", "new"]
 
 
@@ -140,8 +143,13 @@ def gen_cfg_a(rng, idx, n_rec):
             continue
         entry = rng.choice("DDDDDDMMFF")
         msg = rng.choice(MESSAGES) if rng.random() < 0.7 else rand_text(rng, 0, 30)
-        items.append({"k": "rec", "entry": entry, "level": rng.randint(1, 5), "target": pick_target(), "msg": msg,
-                      "file": rng.choice(FILES), "line": rng.choice(LINES), "module": rng.choice(MODULES)})
+        it = {"k": "rec", "entry": entry, "level": rng.randint(1, 5), "target": pick_target(), "msg": msg,
+              "file": rng.choice(FILES), "line": rng.choice(LINES), "module": rng.choice(MODULES)}
+        if rng.random() < 0.2:
+            # a message that is a string literal without arguments (`record.args().as_str()` is Some)
+            it["lit"] = rng.randrange(len(LITS))
+            it["msg"] = LITS[it["lit"]]
+        items.append(it)
     return {"part": "a", "id": "a%03d" % idx, "logmax": logmax, "init": init, "ignore": ignore, "mode": mode, "hint": hint, "dflt": dflt,
             "rules": rules, "dangling": dangling, "items": items}
 
@@ -159,6 +167,11 @@ def case_text_a(c):
         elif it["k"] == "cvr":
             L.append("cvr %d %s %s %s %s" % (it["level"], x(it["target"]), "-" if it["file"] is None else x(it["file"]),
                                             "-" if it["line"] is None else str(it["line"]), "-" if it["module"] is None else x(it["module"])))
+        elif "lit" in it:
+            L.append("lit %s %d %s %d %s %s %s" % (it["entry"], it["level"], x(it["target"]), it["lit"],
+                                                   "-" if it["file"] is None else x(it["file"]),
+                                                   "-" if it["line"] is None else str(it["line"]),
+                                                   "-" if it["module"] is None else x(it["module"])))
         else:
             L.append("rec %s %d %s %s %s %s %s" % (it["entry"], it["level"], x(it["target"]), x(it["msg"]),
                                                    "-" if it["file"] is None else x(it["file"]),
@@ -192,6 +205,10 @@ def parse_case_a(text, cid):
         elif t[0] == "cvr":
             c["items"].append({"k": "cvr", "level": int(t[1]), "target": ux(t[2]), "file": None if t[3] == "-" else ux(t[3]),
                                "line": None if t[4] == "-" else int(t[4]), "module": None if t[5] == "-" else ux(t[5])})
+        elif t[0] == "lit":
+            c["items"].append({"k": "rec", "entry": t[1], "level": int(t[2]), "target": ux(t[3]), "lit": int(t[4]), "msg": LITS[int(t[4])],
+                               "file": None if t[5] == "-" else ux(t[5]), "line": None if t[6] == "-" else int(t[6]),
+                               "module": None if t[7] == "-" else ux(t[7])})
         elif t[0] == "rec":
             c["items"].append({"k": "rec", "entry": t[1], "level": int(t[2]), "target": ux(t[3]), "msg": ux(t[4]),
                                "file": None if t[5] == "-" else ux(t[5]), "line": None if t[6] == "-" else int(t[6]),
@@ -220,6 +237,11 @@ def canon_impl_obs_a(o):
     norm = None if n is None else (hexs(n["name"]), hexs(n["target"]), n["level"], hexs(n["file"]), n["line"], hexs(n["module"]),
                                    [hexs(f) for f in n["fields"]])
     return ("ev", hexs(o["name"]), hexs(o["target"]), o["level"], o["cs"] if o["cs"] >= 0 else None, fields, bool(o["is_log"]), norm)
+
+
+def dbg_messages(o):
+    """what a visitor that implements only `record_debug` gets for the `message` field: the `{:?}` texts"""
+    return [hexs(v) for n, v in o.get("dbg", []) if hexs(n) == "message"]
 
 
 def som(v):
@@ -352,7 +374,7 @@ def oracle_a(rep, c, impl, text):
                 rep.violation("Log::enabled answers false for (level %s, target %r) although the current collector accepts that level and target" % (
                     LVU[it["level"]], it["target"]), case)
             continue
-        rep.count("a:entry-" + it["entry"])
+        rep.count("a:entry-" + it["entry"] + ("-literal" if "lit" in it else ""))
         rep.count("a:level-%s" % LVU[it["level"]])
         rep.count("a:loc-%d%d%d" % (it["file"] is not None, it["line"] is not None, it["module"] is not None))
         accepts = c["mode"] != "none" and table(c["rules"], c["dflt"], it["target"], it["level"])
@@ -386,6 +408,10 @@ def oracle_a(rep, c, impl, text):
             msgs = [v for (n, k, v, _) in fields if n == "message"]
             if msgs != [it["msg"]]:
                 rep.violation("the event does not carry the record's message: %r vs %r" % (msgs, it["msg"]), case)
+            dmsgs = [m_ for z in o["obs"] if z["t"] == "ev" for m_ in dbg_messages(z)]
+            if dmsgs != [it["msg"]]:
+                rep.violation("the event does not carry the record's message to a visitor that implements only record_debug (the `message` convention): "
+                              "its Debug text is %r, the record's message is %r%s" % (dmsgs, it["msg"], " (a string literal without arguments)" if "lit" in it else ""), case)
             if lvl != it["level"]:
                 rep.violation("the event's level is %s, the record's %s" % (LVU[lvl], LVU[it["level"]]), case)
             want_norm = ("log event", it["target"], it["level"], f, l, m, ["message"])
@@ -512,6 +538,7 @@ def gen_case_b(rng, idx, n_ops, malformed=False):
         free = [s for s in range(8) if s not in slots]
         idle = [s for s, st in slots.items() if st == "idle"]
         ent = [s for s, st in slots.items() if st == "entered"]
+        fut = [s for s, st in slots.items() if st == "fut"]
         if r > 0.86 and rng.random() < 0.6:
             # other threads, follows_from, bare observations
             z = rng.random()
@@ -532,7 +559,7 @@ def gen_case_b(rng, idx, n_ops, malformed=False):
                 ops.append(("hbs",))
             continue
         if malformed and r < 0.2:
-            kind = rng.choice(["en", "ex", "dr", "rec", "none", "uninstall", "install"])
+            kind = rng.choice(["en", "ex", "dr", "rec", "none", "uninstall", "install", "poll", "idrop", "insc", "ins"])
             s = rng.randint(0, 7)
             if kind == "none":
                 ops.append(("none", s))
@@ -545,9 +572,15 @@ def gen_case_b(rng, idx, n_ops, malformed=False):
                 ops.append(("uninstall",))
             elif kind == "install":
                 ops.append(("install", rng.choice(["scoped", "global"])))
+            elif kind == "ins":
+                ops.append(("ins", s, rng.choice("tf")))
+                if slots.get(s) == "idle":
+                    slots[s] = "fut"
             else:
                 ops.append((kind, s))
                 st = slots.get(s)
+                if kind == "idrop" and st == "fut":
+                    del slots[s]
                 if kind == "en" and st == "idle":
                     slots[s] = "entered"
                 elif kind == "ex" and st == "entered":
@@ -555,21 +588,36 @@ def gen_case_b(rng, idx, n_ops, malformed=False):
                 elif kind == "dr" and st == "idle":
                     del slots[s]
             continue
-        if r < 0.35 or (not free and not idle and not ent):
+        if r < 0.35 or (not free and not idle and not ent and not fut):
             ops.append(("ev", rng.randrange(len(EVENT_CS)), gen_vals(rng)))
         elif r < 0.55 and free:
             s = rng.choice(free)
             slot_cs[s] = rng.randrange(len(SPAN_CS))
             ops.append(("sp", s, slot_cs[s], gen_vals(rng)))
             slots[s] = "idle"
+        elif r < 0.62 and idle and rng.random() < 0.5:
+            # enter by other public routes: in_scope, or polling / dropping an Instrumented future
+            s = rng.choice(idle)
+            if rng.random() < 0.35:
+                ops.append(("insc", s))
+            else:
+                ops.append(("ins", s, rng.choice("tf")))
+                slots[s] = "fut"
         elif r < 0.7 and idle:
             s = rng.choice(idle)
             ops.append(("en", s))
             slots[s] = "entered"
-        elif r < 0.82 and ent:
-            s = rng.choice(ent)
-            ops.append(("ex", s))
-            slots[s] = "idle"
+        elif r < 0.82 and (ent or fut):
+            s = rng.choice(ent + fut + fut)
+            if slots[s] == "fut":
+                if rng.random() < 0.75:
+                    ops.append(("poll", s))
+                else:
+                    ops.append(("idrop", s))
+                    del slots[s]
+            else:
+                ops.append(("ex", s))
+                slots[s] = "idle"
         elif r < 0.92 and idle:
             s = rng.choice(idle)
             ops.append(("dr", s))
@@ -604,6 +652,8 @@ def case_text_b(c):
             L.append("gmid %d %d ev %d %s" % (o[1], o[2], o[3], vals_text(o[4])))
         elif o[0] == "fol":
             L.append("fol %d %s" % (o[1], "-" if o[2] is None else str(o[2])))
+        elif o[0] == "ins":
+            L.append("ins %d %s" % (o[1], o[2]))
         elif o[0] == "install":
             L.append("install " + o[1])
         elif o[0] == "ev":
@@ -650,6 +700,8 @@ def parse_case_b(text, cid):
             c["ops"].append(("gmid", int(t[1]), int(t[2]), int(t[4]), vals(t[5:])))
         elif t[0] == "fol":
             c["ops"].append(("fol", int(t[1]), None if t[2] == "-" else int(t[2])))
+        elif t[0] == "ins":
+            c["ops"].append(("ins", int(t[1]), t[2]))
         elif t[0] in ("dangling", "uninstall", "hbs"):
             c["ops"].append((t[0],))
         elif t[0] == "install":
@@ -847,11 +899,12 @@ def process_case_b(rep, c, impl, text, always, disagree, table_bad):
             rep.count("b:ev" + ("" if thread == 0 else "-worker"))
         elif kind == "fol":
             s = slots.get(o[1])
-            if s is None:
+            if s is None or s["state"] == "fut":
                 want_skip = True
             else:
                 sp = "(mkSpan %s %s)" % ("None" if s["none"] else "(Some %s)" % s["meta"], coN(s["sid"]))
                 fr = slots.get(o[2]) if o[2] is not None else None
+                fr = None if (fr is not None and fr["state"] == "fut") else fr
                 add(i, ["(MLog 0 (OpFollows %s %s))" % (sp, coN(fr["sid"] if fr else None))])
                 step = "silent"
                 rep.count("b:fol")
@@ -882,7 +935,7 @@ def process_case_b(rep, c, impl, text, always, disagree, table_bad):
                 slots[o[1]] = {"meta": None, "sid": None, "cs": None, "state": "idle", "none": True}
         elif kind == "rec":
             s = slots.get(o[1])
-            if s is None:
+            if s is None or s["state"] == "fut":
                 want_skip = True
             else:
                 sp = "(mkSpan %s %s)" % ("None" if s["none"] else "(Some %s)" % s["meta"], coN(s["sid"]))
@@ -897,6 +950,35 @@ def process_case_b(rep, c, impl, text, always, disagree, table_bad):
                 else:
                     step = "silent"   # no such field / Span::none(): nothing may be logged
                     rep.count("b:rec-nofield")
+        elif kind == "ins":
+            s = slots.get(o[1])
+            if s is None or s["state"] != "idle":
+                want_skip = True
+            else:
+                s["state"] = "fut"
+                rep.count("b:instrument-" + o[2])
+        elif kind in ("insc", "poll", "idrop"):
+            # the span is entered and exited (in_scope / <Instrumented as Future>::poll / Instrumented's drop, which then
+            # drops the span): one lifecycle record per step
+            s = slots.get(o[1])
+            if s is None or s["state"] != ("idle" if kind == "insc" else "fut"):
+                want_skip = True
+            else:
+                sp = "(mkSpan %s %s)" % ("None" if s["none"] else "(Some %s)" % s["meta"], coN(s["sid"]))
+                seq = ["en", "ex"] + (["dr"] if kind == "idrop" else [])
+                add(i, ["(MLog 0 (%s %s))" % ({"en": "OpEnter", "ex": "OpExit", "dr": "OpDrop"}[k_], sp) for k_ in seq])
+                if s["none"]:
+                    step = "silent"
+                else:
+                    lvl, _, name, _ = SPAN_CS[s["cs"]]
+                    step = []
+                    for k_ in seq:
+                        pre = {"en": "-> ", "ex": "<- ", "dr": "-- "}[k_]
+                        must = [pre + name + ";"] + ([" span=%d" % s["sid"]] if s["sid"] is not None else [])
+                        step.append((False, 5, lvl, "tracing::span::active" if k_ != "dr" else "tracing::span", must, s["sid"]))
+                rep.count("b:" + kind + ("-none" if s["none"] else ""))
+                if kind == "idrop":
+                    del slots[o[1]]
         elif kind in ("en", "ex", "dr"):
             s = slots.get(o[1])
             need = {"en": "idle", "ex": "entered", "dr": "idle"}[kind]
@@ -941,7 +1023,8 @@ def process_case_b(rep, c, impl, text, always, disagree, table_bad):
             if recs:
                 rep.violation("op %s emitted %d log record(s); it is neither an event nor a lifecycle step of a span with metadata" % (kind, len(recs)), case)
             continue
-        in_event, rec_lvl, gate_lvl, tgt, must, sid = step
+        steps = step if isinstance(step, list) else [step]
+        sid = steps[0][5]
         emitting = always or not installed_before
         rep.nontrivial.add(("b", always, kind, o[1] if kind == "ev" else (o[2] if kind == "sp" else None), phase, sid is not None,
                             thread, None if installer is None else (installer == thread)))
@@ -951,10 +1034,10 @@ def process_case_b(rep, c, impl, text, always, disagree, table_bad):
                     kind, "" if thread == 0 else " on worker %d" % thread,
                     "" if installer in (None, thread) else " by another thread (%s)" % ("main" if installer == 0 else "worker %d" % installer), len(recs)), case)
             continue
-        open_gates = gate_lvl <= c["logmax"] and table(c["logger"][1], c["logger"][0], tgt, rec_lvl)
+        open_gates = all(g_ <= c["logmax"] and table(c["logger"][1], c["logger"][0], t_, l_) for (_, l_, g_, t_, _, _) in steps)
         if not open_gates:
             rep.count("b:log-side-gate-closed")
-            if len(recs) > 1:
+            if len(recs) > len(steps):
                 rep.violation("%s emitted %d log records" % (kind, len(recs)), case)
             continue   # the property speaks about a logger that takes the record; the closed case is covered by the correspondence
         if window and not always:
@@ -966,19 +1049,20 @@ def process_case_b(rep, c, impl, text, always, disagree, table_bad):
                 continue
             if not recs:
                 continue
-        elif len(recs) != 1:
-            rep.violation("%s %s emitted %d log record(s), expected exactly one" % (
-                kind, "with no collector ever installed" if not installed_before else "(log-always)", len(recs)), case)
+        elif len(recs) != len(steps):
+            rep.violation("%s %s emitted %d log record(s), expected exactly %s" % (
+                kind, "with no collector ever installed" if not installed_before else "(log-always)", len(recs),
+                "one" if len(steps) == 1 else "%d (one per lifecycle step: %s)" % (len(steps), ", ".join(st_[4][0] for st_ in steps))), case)
             continue
-        lvl_, t_, text_, f_, l_, m_ = recs[0]
-        if lvl_ != rec_lvl:
-            rep.violation("%s: log record level %s, expected %s" % (kind, LVU[lvl_], LVU[rec_lvl]), case)
-        if t_ != tgt:
-            rep.violation("%s: log record target %r, expected %r" % (kind, t_, tgt), case)
-        for piece in must:
-            if piece not in text_:
-                rep.violation("%s: log text %r does not contain %r" % (kind, text_, piece), case)
-                break
+        for (in_event, rec_lvl, gate_lvl, tgt, must, sid), (lvl_, t_, text_, f_, l_, m_) in zip(steps, recs):
+            if lvl_ != rec_lvl:
+                rep.violation("%s: log record level %s, expected %s" % (kind, LVU[lvl_], LVU[rec_lvl]), case)
+            if t_ != tgt:
+                rep.violation("%s: log record target %r, expected %r" % (kind, t_, tgt), case)
+            for piece in must:
+                if piece not in text_:
+                    rep.violation("%s: log text %r does not contain %r" % (kind, text_, piece), case)
+                    break
     return mops, ranges, spec_exists
 
 
@@ -1086,6 +1170,7 @@ def run(ctx):
     terms = []
     index_a = {}
     cur_bad = []
+    lit_bad = []
     for c in cases_a:
         im = impl_a[c["id"]]
         if im["rc"] != 0 or len(im["items"]) != len(c["items"]) or "current" not in im:
@@ -1098,12 +1183,18 @@ def run(ctx):
         rep.count("a:hint-" + ("none" if c["hint"] < 0 else LVU[c["hint"]]))
         rep.count("a:ignore-%d" % len(c["ignore"]))
         oracle_a(rep, c, im, texts_a[c["id"]])
+        for i_, it_ in enumerate(c["items"]):
+            if "lit" in it_:
+                io_ = im["items"][i_]
+                if hexs(io_.get("lit_text")) != it_["msg"] or io_.get("as_str") is not True:
+                    lit_bad.append({"case": c["id"], "item": i_, "driver": it_["msg"], "harness": hexs(io_.get("lit_text")), "as_str": io_.get("as_str")})
         t, ri, fi, ei = model_terms_a(c, im)
         terms += t
         index_a[c["id"]] = (ri, fi, ei)
         rep.count("a:init-" + c.get("init", "builder"))
     ctx.log("part a: %d configurations run" % len(cases_a))
     rep.tie("a:LevelFilter::current()-as-assumed", not cur_bad, "%d configurations" % len(cur_bad), cur_bad[:1] or None)
+    rep.tie("a:literal-message-table (fmt::Arguments::as_str() is Some)", not lit_bad, "%d mismatches" % len(lit_bad), lit_bad[:1] or None)
     # the level conversions through the public AsTrace / AsLog impls: bijections that preserve the order (oracle), and the
     # generated tables of the model (correspondence, below)
     conv_seen = {}
@@ -1225,6 +1316,12 @@ def run(ctx):
                     mobs = []   # NoCollector cannot be observed: nothing may reach the (uninstalled) recording collector
                 if mobs != impl_obs:
                     dis_a.append({"case": c["id"], "item": idx, "record": c["items"][idx], "impl": impl_obs, "model": mobs})
+                else:
+                    # the same through a visitor with record_debug only: a fmt::Arguments value's Debug text is the text itself
+                    mdbg = [f[2] for z in mobs if z[0] == "ev" for f in z[5] if f[0] == "message" and f[1] == 0]
+                    idbg = [m_ for z in im["items"][idx]["obs"] if z["t"] == "ev" for m_ in dbg_messages(z)]
+                    if mdbg != idbg:
+                        dis_a.append({"case": c["id"], "item": idx, "what": "message through a record_debug-only visitor", "impl": idbg, "model": mdbg})
             if fi:
                 for idx, me in zip(fi, model[c["id"] + ":foreign"]):
                     n_a_cmp += 1
